@@ -32,7 +32,10 @@ IsRound == l <= Len(Log) /\ Ev.e = "Round"
 
 MkCfg(c) == [maxNames |-> c.maxNames, maxMatch |-> c.maxMatch, maxReplies |-> c.maxReplies,
              maxCompleted |-> c.maxCompleted, maxPerUser |-> c.maxPerUser, busUid |-> c.busUid,
-             policy |-> c.policy, epoch |-> 2, maxMsgFds |-> c.maxMsgFds, maxMsgSize |-> c.maxMsgSize]
+             policy |-> c.policy, epoch |-> 2, maxMsgFds |-> c.maxMsgFds, maxMsgSize |-> c.maxMsgSize,
+             \* activation: service files, limit on waiting requests
+             act |-> IF "act" \in DOMAIN c THEN c.act ELSE <<>>,
+             maxPendingAct |-> IF "maxPendingAct" \in DOMAIN c THEN c.maxPendingAct ELSE 512]
 
 ZeroPos == [s \in Slot |-> 0]
 \* the known-defect deviation PolicyPruning is a property of the whole run of one daemon: chosen at Reset
@@ -75,8 +78,15 @@ RECURSIVE BagMatch(_,_)
 BagMatch(os, es) ==
   IF es = <<>> THEN os = <<>>
   ELSE \E i \in 1..Len(os) : MsgMatch(os[i], es[1]) /\ BagMatch(RemoveAt(os, i), Tail(es))
+\* ... and messages from clients (held messages released together when their service appears) keep their order
+FromClient(ms) == SelectSeq(ms, LAMBDA m : m.snd # BUS /\ m.snd # <<>> /\ m.dst # <<>>)
+ClientOrderOK(os, es) ==
+  LET a == FromClient(os)  b == FromClient(es) IN
+  Len(b) > 1 => /\ Len(a) = Len(b)
+                /\ \A i \in 1..Len(b) : a[i].ser = b[i].ser /\ a[i].snd = b[i].snd
 GroupMatch(os, es) ==
   /\ Len(os) = Len(es)
+  /\ ClientOrderOK(os, es)
   /\ IF es # <<>> /\ IsReply(es[Len(es)])
      THEN /\ MsgMatch(os[Len(os)], es[Len(es)])
           /\ BagMatch(SubSeq(os, 1, Len(os) - 1), SubSeq(es, 1, Len(es) - 1))
@@ -182,7 +192,7 @@ RawM(s, b) ==
    mem |-> m.mem, err |-> m.err, sig |-> m.sig, args |-> TopArgs(m.body), fl |-> b[3], org |-> 0, cmp |-> "rawbody",
    nfd |-> d.nfd, fds |-> SubSeq(fdx.held[s], 1, d.nfd), unk |-> <<>>, ci |-> FALSE, tree |-> m.body, fsnd |-> m.snd]
 RawRepresentable(b) == LET m == W!MessageDecX(b, 16, TRUE).m IN m.ser[4] < 128 /\ m.rs[4] < 128
-Nop == out' = <<>> /\ UNCHANGED <<cfg, cst, dying, uid, uname, everNames, queue, rules, pend, mon, fdx>>
+Nop == out' = <<>> /\ UNCHANGED <<cfg, cst, dying, uid, uname, everNames, queue, rules, pend, mon, fdx, act>>
 
 \* a client the daemon closed may never see the reply to its Hello although the Hello was processed: the name it
 \* got is then one of those announced to the others in this round
@@ -205,7 +215,7 @@ DumpOK(op) ==
         /\ d.q = [j \in 1..Len(q) |-> q[j].s]
         /\ (q # <<>> => d.ar = q[1].ar)
   /\ \A r \in Slot : op.nrules[r] = Len(rules[r])
-Dump(op) == DumpOK(op) /\ out' = <<>> /\ UNCHANGED <<cfg, cst, dying, uid, uname, everNames, queue, rules, pend, mon, fdx>>
+Dump(op) == DumpOK(op) /\ out' = <<>> /\ UNCHANGED <<cfg, cst, dying, uid, uname, everNames, queue, rules, pend, mon, fdx, act>>
 
 Apply0(s, op) ==
   IF cst[s] = "monitor" /\ op.k # "connect" THEN Plain(MonitorSpeaks(s)) ELSE
@@ -225,6 +235,9 @@ Apply0(s, op) ==
                                   ELSE Send(s, OpMsgFds(s, op), SubSeq(FdPool(s, op), op.nfd + 1, Len(FdPool(s, op)))))
                         \/ Dev("LocalReplyUnstamped", Dev_LocalReplyUnstamped(s, OpMsg(op), op.fsnd))
     [] op.k = "close" -> Plain(PingAndClose(s, op.ser))
+    [] op.k = "startsvc" -> Plain(StartService(s, op.ser, op.fl, op.n, op.flags))
+    \* (environment, not a client: the driver made the process started for op.n end)
+    [] op.k = "svc_exit" -> Plain(ChildExit(op.n, op.status, op.signaled))
     [] op.k = "big" -> Plain(Corrupt(s))
     [] op.k = "raw" ->
          LET c == RawClass(s, op.b) IN
@@ -307,6 +320,16 @@ TExpire(i) ==
   /\ Explain(gone \cup kicked)
   /\ UNCHANGED <<l, pos, sdone, gone, kicked, devs, skipd>>
 
+\* the start of a service fails on its own: the program cannot be executed (any time), or the start timeout has
+\* passed (one-sided timing as for TExpire: Ev.actMay = last round that began at least service_start_timeout ago)
+TActFail(n) ==
+  /\ IsRound /\ PIdx(act.pend, n) # 0
+  /\ \/ ExecFails(n)
+     \/ act.pend[PIdx(act.pend, n)].born <= Ev.actMay /\ ActTimeout(n)
+  /\ Explain(gone \cup kicked)
+  /\ UNCHANGED <<l, pos, sdone, gone, kicked, devs, skipd>>
+ActNamesPending == {act.pend[i].n : i \in 1..Len(act.pend)}
+
 \* end of the round: everything read has been explained, every EOF seen by a client is one the model predicts
 TEnd ==
   /\ IsRound /\ AllOpsDone /\ sdone = SyncSlots
@@ -315,6 +338,11 @@ TEnd ==
   \* ... and must have expired if it was recorded in a round that ended long ago (Ev.expMust), or if its callee
   \* went away in an earlier round ("expires at once")
   /\ \A i \in 1..Len(pend) : pend[i].born > Ev.expMust /\ (pend[i].callee = NoSlot => pend[i].orph = cfg.epoch)
+  \* activation: a start that cannot succeed has failed by now, an old one has timed out, and the daemon has
+  \* started exactly as many processes as the specification says
+  /\ \A i \in 1..Len(act.pend) : act.pend[i].born > Ev.actMust /\ ActKind(act.pend[i].n) # "noexec"
+  /\ \A i \in 1..Len(Ev.starts) : SpawnCount(Ev.starts[i].n) = Ev.starts[i].k
+  /\ \A n \in DOMAIN act.spawned : \E i \in 1..Len(Ev.starts) : Ev.starts[i].n = n
   /\ l' = l + 1 /\ pos' = ZeroPos /\ sdone' = {}
   /\ IF l + 1 <= Len(Log) /\ Log[l + 1].e = "Round"
      THEN /\ \A r \in Slot : r \notin gone \cup kicked => CarryMatch(Log[l + 1].obs[r], 0, carry[r], 1)
@@ -325,7 +353,7 @@ TEnd ==
   /\ gone' = gone \cup kicked
   /\ UNCHANGED <<devs, skipd>>
   /\ cfg' = [cfg EXCEPT !.epoch = @ + 1]
-  /\ UNCHANGED <<cst, dying, uid, uname, everNames, queue, rules, pend, mon, fdx, out>>
+  /\ UNCHANGED <<cst, dying, uid, uname, everNames, queue, rules, pend, mon, fdx, act, out>>
 
 TEndDebug ==
   /\ Debug /\ IsRound /\ AllOpsDone /\ sdone = SyncSlots
@@ -341,11 +369,16 @@ TReset ==
   /\ uid' = [s \in Slot |-> 0] /\ uname' = [s \in Slot |-> <<>>] /\ everNames' = {}
   /\ queue' = <<>> /\ rules' = [s \in Slot |-> <<>>] /\ pend' = <<>> /\ mon' = [s \in Slot |-> <<>>]
   /\ fdx' = [cap |-> [s \in Slot |-> FALSE], held |-> [s \in Slot |-> <<>>]]
+  /\ act' = NoAct
   /\ out' = <<>>
   /\ l' = l + 1 /\ pos' = ZeroPos /\ cnt' = ZeroPos /\ sdone' = {} /\ gone' = {} /\ kicked' = {} /\ skipd' = {} /\ carry' = NoCarry
 
 \* end of a scenario: every client closed, the driver waited for the daemon's descriptor table to settle
 TFinal == /\ l <= Len(Log) /\ Ev.e = "Final" /\ Ev.fdleak = 0 /\ l' = l + 1
+          \* the start log written by the started processes themselves: never more starts than the specification
+          \* counts (fewer are possible here: the driver's stand-in may take the name before the forked helper has
+          \* executed the program, and the daemon then reaps the helper)
+          /\ \A i \in 1..Len(Ev.stublog) : Ev.stublog[i].k <= SpawnCount(Ev.stublog[i].n)
           /\ UNCHANGED vars /\ UNCHANGED <<pos, cnt, sdone, gone, kicked, devs, skipd, carry>>
 
 TFirst == l = 1 /\ l' = 2 /\ UNCHANGED vars /\ UNCHANGED <<pos, cnt, sdone, gone, kicked, devs, skipd, carry>>
@@ -353,6 +386,7 @@ TFirst == l = 1 /\ l' = 2 /\ UNCHANGED vars /\ UNCHANGED <<pos, cnt, sdone, gone
 TNext == \/ TFirst \/ TReset \/ TEnd \/ TEndDebug \/ TFinal
          \/ \E s \in Slot : TStep(s) \/ TSync(s) \/ TDrop(s) \/ TSkip(s)
          \/ \E i \in 1..Len(pend) : TExpire(i)
+         \/ \E n \in ActNamesPending : TActFail(n)
 
 TSpec == TInit /\ [][TNext]_<<vars, tvars>>
 
